@@ -629,6 +629,9 @@ func cmdCheck(args []string) int {
 		}
 	}
 	if len(hev) == 0 {
+		for f, why := range dropped {
+			fmt.Printf("INCONCLUSIVE property=%s harness file %s does not compile against the current tree and was left out: %s\n", *prop, strings.TrimPrefix(f, verifDir+"/"), why)
+		}
 		fmt.Printf("INCONCLUSIVE property=%s no harness selected for tier %s\n", *prop, *tier)
 		return 2
 	}
